@@ -265,3 +265,242 @@ fn u7_identity() {
     kani::assert(a2.inner().strong() == s && a2.inner().weak() == w, "U7.weak_raw_roundtrip.counts_untouched");
     core::mem::forget((wk2, a2, b));
 }
+
+// ------------------------------------------------------------- U8 consuming API (C07 without adoptions, C12 with)
+// Stubs: the group/zero-count-with-adoptions teardown callees of `Rc::drop` are replaced by recorders;
+// on objects without adoptions they are unreachable (U5), which the harnesses re-check through the counters.
+use crate::hash::HashMap;
+use crate::link::Link;
+static mut GROUP_CALLS: usize = 0;
+unsafe fn stub_dua<T>(_this: &mut Rc<T>) {
+    GROUP_CALLS += 1;
+}
+unsafe fn stub_dc<T>(_cycle: HashMap<Link<T>, usize>) {
+    GROUP_CALLS += 1;
+}
+fn stub_oc<T>(_this: &Rc<T>) -> Option<HashMap<Link<T>, usize>> {
+    unsafe {
+        GROUP_CALLS += 1;
+    }
+    None
+}
+
+/// try_unwrap: Ok(value) iff exactly one strong handle; then strong 0, implicit weak released; else Err(same handle), nothing written
+#[kani::proof]
+#[kani::unwind(6)]
+fn u8_try_unwrap_plain() {
+    let v: u8 = kani::any();
+    let a = Rc::new(v);
+    let (s, w) = any_counts();
+    kani::assume(s >= 1 && s != MAX && w >= 2);
+    set_counts(&a, s, w);
+    let keep = alias(&a);
+    match Rc::try_unwrap(a) {
+        Ok(x) => {
+            kani::assert(s == 1, "U8.try_unwrap.ok_only_when_sole_strong");
+            kani::assert(x == v, "U8.try_unwrap.returns_the_value");
+            kani::assert(keep.inner().strong() == 0 && keep.inner().weak() == w - 1, "U8.try_unwrap.strong_zero_implicit_weak_released");
+        }
+        Err(r) => {
+            kani::assert(s != 1, "U8.try_unwrap.err_iff_shared");
+            kani::assert(r.ptr == keep.ptr && keep.inner().strong() == s && keep.inner().weak() == w, "U8.try_unwrap.err_returns_same_handle_untouched");
+            core::mem::forget(r);
+        }
+    }
+    core::mem::forget(keep);
+}
+
+#[kani::proof]
+#[kani::unwind(6)]
+fn u8_try_unwrap_releases() {
+    let a = Rc::new(7u8);
+    let p = a.ptr.as_ptr();
+    let r = Rc::try_unwrap(a);
+    kani::assert(r.is_ok(), "U8.try_unwrap.ok_on_fresh_object");
+    core::mem::forget(r);
+    let probe = unsafe { *(p as *const usize) };
+    kani::assert(probe == 0 || probe != 0, "PROBE-AFTER-RELEASE");
+}
+
+#[kani::proof]
+fn u8_get_mut() {
+    let v: u8 = kani::any();
+    let mut a = Rc::new(v);
+    let (s, w) = any_counts();
+    kani::assume(s >= 1 && s != MAX && w >= 1);
+    set_counts(&a, s, w);
+    let raw = Rc::as_ptr(&a);
+    let r = Rc::get_mut(&mut a).map(|m| m as *mut u8 as *const u8);
+    kani::assert(r.is_some() == (s == 1 && w == 1), "U8.get_mut.some_iff_unique");
+    if let Some(p) = r {
+        kani::assert(p == raw, "U8.get_mut.points_at_the_value");
+    }
+    kani::assert(a.inner().strong() == s && a.inner().weak() == w, "U8.get_mut.writes_nothing");
+    core::mem::forget(a);
+}
+
+/// make_mut, three branches, on an object without adoptions
+#[kani::proof]
+#[kani::unwind(6)]
+#[kani::stub(crate::drop::drop_unreachable_with_adoptions, stub_dua)]
+#[kani::stub(crate::drop::drop_cycle, stub_dc)]
+#[kani::stub(crate::rc::Rc::orphaned_cycle, stub_oc)]
+fn u8_make_mut_plain() {
+    let v: u8 = kani::any();
+    let mut a = Rc::new(v);
+    let (s, w) = any_counts();
+    kani::assume(s >= 1 && s < MAX - 1 && w >= 1 && w < MAX);
+    kani::assume(!(s == 1 && w == 1) || true);
+    set_counts(&a, s, w);
+    let old = alias(&a);
+    let m = Rc::make_mut(&mut a) as *mut u8;
+    kani::assert(unsafe { *m } == v, "U8.make_mut.value_preserved");
+    kani::assert(m as *const u8 == Rc::as_ptr(&a), "U8.make_mut.returns_reference_into_current_allocation");
+    if s != 1 {
+        kani::assert(a.ptr != old.ptr, "U8.make_mut.shared.clones_into_new_allocation");
+        kani::assert(a.inner().strong() == 1 && a.inner().weak() == 1, "U8.make_mut.shared.new_allocation_is_unique");
+        kani::assert(old.inner().strong() == s - 1 && old.inner().weak() == w, "U8.make_mut.shared.old_loses_exactly_this_handle");
+    } else if w != 1 {
+        kani::assert(a.ptr != old.ptr, "U8.make_mut.weak_only.moves_into_new_allocation");
+        kani::assert(a.inner().strong() == 1 && a.inner().weak() == 1, "U8.make_mut.weak_only.new_allocation_is_unique");
+        kani::assert(old.inner().strong() == 0 && old.inner().weak() == w - 1, "U8.make_mut.weak_only.old_is_dead_and_implicit_weak_released");
+    } else {
+        kani::assert(a.ptr == old.ptr && a.inner().strong() == 1 && a.inner().weak() == 1, "U8.make_mut.unique.in_place");
+    }
+    kani::assert(unsafe { GROUP_CALLS } == 0, "U8.make_mut.no_group_teardown_without_adoptions");
+    core::mem::forget((a, old));
+}
+
+#[kani::proof]
+#[kani::unwind(6)]
+#[kani::stub(crate::drop::drop_unreachable_with_adoptions, stub_dua)]
+#[kani::stub(crate::drop::drop_cycle, stub_dc)]
+#[kani::stub(crate::rc::Rc::orphaned_cycle, stub_oc)]
+fn u8_strong_count_raw() {
+    let a = Rc::new(3u8);
+    let (s, w) = any_counts();
+    kani::assume(s >= 2 && s < MAX - 1 && w >= 1);
+    set_counts(&a, s, w);
+    let raw = Rc::as_ptr(&a);
+    unsafe { Rc::increment_strong_count(raw) };
+    kani::assert(a.inner().strong() == s + 1 && a.inner().weak() == w, "U8.increment_strong_count.plus_one");
+    unsafe { Rc::decrement_strong_count(raw) };
+    kani::assert(a.inner().strong() == s && a.inner().weak() == w, "U8.decrement_strong_count.minus_one");
+    kani::assert(unsafe { GROUP_CALLS } == 0, "U8.strong_count_raw.no_group_teardown_without_adoptions");
+    core::mem::forget(a);
+}
+
+#[kani::proof]
+#[kani::unwind(6)]
+fn u8_constructors() {
+    let v: u8 = kani::any();
+    let a = Rc::new(v);
+    kani::assert(a.inner().strong() == 1 && a.inner().weak() == 1 && *a == v, "U8.new.one_strong_one_implicit_weak_value_stored");
+    kani::assert(table_len(&a) == 0, "U8.new.no_adoption_records");
+    let b: Rc<u8> = Rc::from(v);
+    kani::assert(b.inner().strong() == 1 && b.inner().weak() == 1 && *b == v, "U8.from_value.same_as_new");
+    let c: Rc<u8> = Rc::from(alloc::boxed::Box::new(v));
+    kani::assert(c.inner().strong() == 1 && c.inner().weak() == 1 && *c == v, "U8.from_box.counts_and_value");
+    kani::assert(table_len(&c) == 0, "U8.from_box.no_adoption_records");
+    let d: Rc<u8> = Rc::default();
+    kani::assert(*d == 0 && d.inner().strong() == 1, "U8.default.default_value");
+    core::mem::forget((a, b, c, d));
+}
+
+#[kani::proof]
+fn u8_comparisons() {
+    let (x, y): (u8, u8) = (kani::any(), kani::any());
+    let a = Rc::new(x);
+    let b = Rc::new(y);
+    kani::assert((a == b) == (x == y) && (a != b) == (x != y), "U8.eq.forwards_to_values");
+    kani::assert((a < b) == (x < y) && (a <= b) == (x <= y) && (a > b) == (x > y) && (a >= b) == (x >= y), "U8.ord.forwards_to_values");
+    kani::assert(a.cmp(&b) == x.cmp(&y) && a.partial_cmp(&b) == x.partial_cmp(&y), "U8.cmp.forwards_to_values");
+    kani::assert(*a == x && *core::borrow::Borrow::<u8>::borrow(&a) == x && *a.as_ref() == x, "U8.deref.yields_the_value");
+    core::mem::forget((a, b));
+}
+
+// ------------------------------------------------------------- C07 cross-check against the real std::rc
+/// The same straight-line program (with symbolic choices) on cactusref and on std::rc; all observations equal.
+macro_rules! scenario {
+    ($name:ident, $rc:ident, $weak:ident) => {
+        fn $name(choice: [bool; 4], v: u8) -> [usize; 12] {
+            let mut o = [0usize; 12];
+            let a = $rc::new(v);
+            let b = if choice[0] { Some($rc::clone(&a)) } else { None };
+            let w = $rc::downgrade(&a);
+            let w2 = if choice[1] { Some(w.clone()) } else { None };
+            o[0] = $rc::strong_count(&a);
+            o[1] = $rc::weak_count(&a);
+            o[2] = w.strong_count();
+            o[3] = w.weak_count();
+            let up = w.upgrade();
+            o[4] = up.is_some() as usize;
+            o[5] = $rc::strong_count(&a);
+            drop(up);
+            if choice[2] {
+                drop(b);
+                drop(a);
+            } else {
+                drop(a);
+                drop(b);
+            }
+            o[6] = w.strong_count();
+            o[7] = w.weak_count();
+            o[8] = w.upgrade().is_some() as usize;
+            drop(w2);
+            o[9] = w.weak_count();
+            if choice[3] {
+                let e: $weak<u8> = $weak::new();
+                o[10] = e.upgrade().is_none() as usize + e.strong_count() + e.weak_count();
+            }
+            drop(w);
+            o[11] = v as usize;
+            o
+        }
+    };
+}
+type StdRc<T> = alloc::rc::Rc<T>;
+type StdWeak<T> = alloc::rc::Weak<T>;
+type CRc<T> = crate::Rc<T>;
+type CWeak<T> = crate::Weak<T>;
+scenario!(scenario_std, StdRc, StdWeak);
+scenario!(scenario_cactus, CRc, CWeak);
+
+#[kani::proof]
+#[kani::unwind(6)]
+#[kani::stub(crate::drop::drop_unreachable_with_adoptions, stub_dua)]
+#[kani::stub(crate::drop::drop_cycle, stub_dc)]
+#[kani::stub(crate::rc::Rc::orphaned_cycle, stub_oc)]
+fn u8_std_crosscheck() {
+    let choice: [bool; 4] = kani::any();
+    let v: u8 = kani::any();
+    let s = scenario_std(choice, v);
+    let c = scenario_cactus(choice, v);
+    let mut i = 0;
+    while i < 12 {
+        kani::assert(s[i] == c[i], "U8.std_crosscheck.every_observation_equals_std");
+        i += 1;
+    }
+    kani::assert(unsafe { GROUP_CALLS } == 0, "U8.std_crosscheck.no_group_teardown_without_adoptions");
+}
+
+/// C12: try_unwrap on an object that has adopted a peer must not leave the peer naming the given-up allocation
+#[kani::proof]
+#[kani::unwind(6)]
+fn u8_try_unwrap_adopted() {
+    let a = Rc::new(1u8);
+    let b = Rc::new(2u8);
+    let k: usize = kani::any();
+    kani::assume(k >= 1);
+    install(&a, fwd(&b), k);
+    install(&b, bwd(&a), k);
+    let w: usize = kani::any();
+    kani::assume(w >= 2);
+    set_counts(&a, 1, w);
+    let fa = fwd(&a);
+    let ba = bwd(&a);
+    let r = Rc::try_unwrap(a);
+    kani::assert(r.is_ok(), "U8.try_unwrap_adopted.ok");
+    kani::assert(cnt(&b, ba) == 0 && cnt(&b, fa) == 0, "U8.try_unwrap_adopted.no_peer_record_names_the_given_up_allocation");
+    core::mem::forget((r, b));
+}
